@@ -24,7 +24,7 @@ theorem gen_consts :
     tridonic_MODE_INFO = 0x01 ∧ tridonic_MODE_OBSERVE = 0x11 ∧ tridonic_MODE_RESPONSE = 0x12 ∧
     tridonic_RESPONSE_NO_FRAME = 0x71 ∧ tridonic_RESPONSE_FRAME_DALI8 = 0x72 ∧ tridonic_RESPONSE_FRAME_DALI16 = 0x73 ∧
     tridonic_RESPONSE_FRAME_DALI24 = 0x76 ∧ tridonic_RESPONSE_INFO = 0x77 ∧ tridonic_BUS_STATUS_FRAMING_ERROR = 3 ∧
-    hidhasseb = [("_INVALID_ANSWER", 3), ("_NO_ANSWER", 1), ("_NO_DATA_AVAILABLE", 0), ("_OK", 2)] ∧
+    hidhasseb_INVALID_ANSWER = 3 ∧ hidhasseb_NO_ANSWER = 1 ∧ hidhasseb_NO_DATA_AVAILABLE = 0 ∧ hidhasseb_OK = 2 ∧
     hidhasseb_cmdtmpl_size = 2 ∧
     lubaCmd_ADD_DALI_FRAME_TO_TX_CMD = 0x32 ∧ luba_MAX_LEN = 24 ∧
     sci_CONTROL_ME_MASK = 0x80 ∧ sci_CONTROL_IDENTIFY_MASK = 0x40 ∧ sci_CONTROL_ECHO_MASK = 0x20 ∧
